@@ -550,6 +550,30 @@ _collection_resolver = AbstractTypeResolver("""),
             self._collection._save()
             self._load = True
         finally:""")]),
+    dict(id="c15-enter-raises-after-increment", fires={"C15": "C15.d", "C07": "C07.d"},
+         edits=[(BUF + "file_buffered_collection.py", """            self.__exit__(type(error), error, error.__traceback__)
+            raise""", """            raise""")]),
+    dict(id="c15-capacity-truthiness", fires={"C15": "C15.g"},
+         edits=[(BUF + "file_buffered_collection.py", """            if original_buffer_capacity is not None:""", """            if original_buffer_capacity:""")]),
+    dict(id="c10-lock-installed-unconditionally", fires={"C10": "C10.e"},
+         edits=[(BK + "collection_json.py", """                    if self._lock_id not in type(self)._locks:
+                        type(self)._locks[self._lock_id] = RLock()
+
+    @property""", """                    type(self)._locks[self._lock_id] = RLock()
+
+    @property""")]),
+    dict(id="c02-empty-file-like-missing", fires={"C02": "C02.h"},
+         edits=[(BK + "collection_json.py", """                blob = file.read()
+""", """                blob = file.read()
+                if not blob:
+                    return None
+""")]),
+    dict(id="c06-flush-repoints-entry", fires={"C06": "C06.h"},
+         edits=[(BUF + "memory_buffered_collection.py", """            self._update(data, _validate=True)
+""", """            self._update(data, _validate=True)
+            if self._filename in type(self)._buffer:
+                type(self)._buffer[self._filename]["contents"] = self._data
+""")]),
     dict(id="c01-writer-swallows-replace-error", fires={"C01": "C01.f"},
          edits=[(BK + "collection_json.py", """            os.replace(fn_tmp, self._filename)
 """, """            try:
